@@ -233,10 +233,23 @@ def c12_instance_copy_of_blanking_parameter():
     return None if h.param.p.search_paths == [d] else f'instance search_paths == {h.param.p.search_paths}'
 
 
+def c05_failed_watch_registers_nothing():
+    """e53c48c: _register_watcher registered the names before the unknown one and then raised"""
+    class P(param.Parameterized):
+        a = param.Integer(0)
+    p = P(); log = []
+    try:
+        p.param.watch(lambda e: log.append(e.name), ['a', 'nosuch'])
+    except ValueError:
+        pass
+    p.a = 1
+    return None if log == [] else f"watch(cb, ['a', 'nosuch']) raised, yet p.a = 1 called the callback: {log}"
+
+
 if __name__ == '__main__':
     for f in [c03_slot_watcher_list_mutated, c03_slot_watcher_registered_in_callback, c16_selector_schema_unnamed_object,
               c18_remove_equal_not_identical, c18_extend_iterator, c18_update_mapping, c18_pop_default,
-              c05_class_trigger_inherited_event, c02_rejected_class_assignment_copy, c08_relink_per_instance_false,
+              c05_class_trigger_inherited_event, c05_failed_watch_registers_nothing, c02_rejected_class_assignment_copy, c08_relink_per_instance_false,
               c12_subclass_copy_shares_containers, c17_multi_name_watcher_after_copy, c17_depth2_dependency_copy,
               c12_instance_copy_of_blanking_parameter]:
         try: r = f()
